@@ -104,13 +104,14 @@ func (v *VLANAllocator) AllocateWithSTag(nteID string, sTag uint16) (*VLANAlloca
 	v.mu.Lock()
 	defer v.mu.Unlock()
 
+	if sTag < v.config.STagRange.Start || sTag > v.config.STagRange.End {
+		return nil, fmt.Errorf("S-TAG %d outside configured range [%d-%d]",
+			sTag, v.config.STagRange.Start, v.config.STagRange.End)
+	}
+
 	// Check if already allocated
-	if alloc, ok := v.allocations[nteID]; ok {
-		if alloc.STag == sTag {
-			return alloc, nil
-		}
-		// Different S-TAG requested, need to reallocate
-		v.releaseUnlocked(nteID)
+	if alloc, ok := v.allocations[nteID]; ok && alloc.STag == sTag {
+		return alloc, nil
 	}
 
 	// Find available C-TAG for this S-TAG
@@ -118,6 +119,9 @@ func (v *VLANAllocator) AllocateWithSTag(nteID string, sTag uint16) (*VLANAlloca
 	if err != nil {
 		return nil, err
 	}
+
+	// Different S-TAG requested: give up the old pair only now that a new one is available
+	v.releaseUnlocked(nteID)
 
 	alloc := &VLANAllocation{
 		STag:  sTag,
